@@ -61,6 +61,10 @@ pub struct Script {
     /// over UDP a reply larger than this is cut to whole records from the end and sent with TC
     /// set, as a real server does for the size the forwarder advertises
     pub udp_truncate_to: Option<usize>,
+    /// the question section of the reply is not an octet-for-octet copy of the query's: 1 = the
+    /// name in lower case (servers that do not preserve 0x20 case), 2 = lower case and the
+    /// class field as 1 whatever was asked
+    pub question_rewrite: u8,
 }
 
 impl Default for Script {
@@ -75,6 +79,7 @@ impl Default for Script {
             tc_udp: false,
             tcp_silent: false,
             tcp_close: false,
+            question_rewrite: 0,
             tcp_split: None,
             tcp_partial_dup_then_close: None,
             udp_truncate_to: None,
@@ -184,6 +189,16 @@ fn build_reply(script: &Script, q: &dns::Message, wrong_id: bool, tc_only: bool)
             m.header.id = qid;
             m.header.qr = true;
             m.questions = q.questions.clone();
+            if script.question_rewrite > 0 {
+                for qq in m.questions.iter_mut() {
+                    for l in qq.name.iter_mut() {
+                        l.make_ascii_lowercase();
+                    }
+                    if script.question_rewrite > 1 {
+                        qq.qclass = 1;
+                    }
+                }
+            }
             dns::encode(&m, *c)
         }
         Reply::Raw(b) => {
